@@ -31,6 +31,7 @@
 use radix_common::prelude::*;
 use radix_transactions::manifest::*;
 use radix_transactions::prelude::*;
+use radix_engine_interface::prelude::LeaderProposalHistory;
 use serde_json::json;
 use std::collections::BTreeMap;
 use std::panic::AssertUnwindSafe;
@@ -1498,6 +1499,174 @@ fn boundary_block(report: &mut Report, cw: &mut CaseWriter, oracle_only: bool) {
     }
 }
 
+
+// ------------------------------------------------------------------------------------------------
+// ledger transaction payloads (LedgerTransaction: Genesis / UserV1 / RoundUpdateV1 / FlashV1 / UserV2)
+// ------------------------------------------------------------------------------------------------
+/// (variant code, name, typed transaction): codes 0 = genesis flash, 1 = genesis system transaction,
+/// 2 = UserV1, 3 = RoundUpdateV1, 4 = FlashV1, 5 = UserV2
+fn ledger_variants(k: usize) -> Vec<(u8, &'static str, LedgerTransaction)> {
+    let v1 = match det_v1(k) { Tx::V1(t) => t, _ => unreachable!() };
+    let v2 = match det_v2(k) { Tx::V2(t) => t, _ => unreachable!() };
+    vec![
+        (0, "genesis_flash", LedgerTransaction::Genesis(Box::new(GenesisTransaction::Flash))),
+        (1, "genesis_transaction", LedgerTransaction::Genesis(Box::new(GenesisTransaction::Transaction(Box::new(SystemTransactionV1 {
+            instructions: InstructionsV1((0..k).map(|_| DropAuthZoneProofs.into()).collect()),
+            blobs: det_blobs(k, 40),
+            pre_allocated_addresses: vec![],
+            hash_for_execution: hash([k as u8, 1, 2]),
+        }))))),
+        (2, "user_v1", LedgerTransaction::UserV1(Box::new(v1))),
+        (3, "round_update_v1", LedgerTransaction::RoundUpdateV1(Box::new(RoundUpdateTransactionV1 {
+            proposer_timestamp_ms: 1_700_000_000_000 + k as i64,
+            epoch: Epoch::of(5 + k as u64),
+            round: Round::of(3),
+            leader_proposal_history: LeaderProposalHistory { gap_round_leaders: (0..k).map(|i| i as u8).collect(), current_leader: 3, is_fallback: k == 0 },
+        }))),
+        (4, "flash_v1", LedgerTransaction::FlashV1(Box::new(FlashTransactionV1 { name: "f".repeat(k), state_updates: StateUpdates::default() }))),
+        (5, "user_v2", LedgerTransaction::UserV2(Box::new(v2))),
+    ]
+}
+fn ledger_settings(max_ledger: usize) -> PreparationSettings {
+    let mut s = PreparationSettings::latest();
+    s.max_ledger_payload_length = max_ledger;
+    s
+}
+/// Ok((ledger hash, hash of the inner transaction)) or the error class
+fn prepare_ledger(payload: &[u8], max_ledger: usize) -> Result<Result<(Hash, Hash), u8>, String> {
+    let p = payload.to_vec();
+    catch(AssertUnwindSafe(move || {
+        match RawLedgerTransaction::from_vec(p).prepare(&ledger_settings(max_ledger)) {
+            Ok(pl) => Ok((pl.ledger_transaction_hash().0, pl.inner.get_summary().hash)),
+            Err(PrepareError::DecodeError(DecodeError::UnknownDiscriminator(_))) => Err(15u8),
+            Err(e) => Err(error_class(&e)),
+        }
+    }))
+}
+/// length of the ledger envelope header in front of the nested transaction's own tuple header
+fn ledger_header_len(code: u8) -> usize {
+    if code <= 1 { 10 } else { 7 }
+}
+fn ledger_block(report: &mut Report, cw: &mut CaseWriter, oracle_only: bool) {
+    let big = 1024 * 1024 + 10;
+    // accepted payloads by ledger hash: two accepted payloads with equal hashes must be byte-equal
+    let mut by_hash: BTreeMap<Vec<u8>, Vec<u8>> = BTreeMap::new();
+    for k in [0usize, 1, 3] {
+        for (code, name, tx) in ledger_variants(k) {
+            if code == 0 && k > 0 {
+                continue;
+            }
+            let payload = tx.to_raw().expect("encode").to_vec();
+            let hlen = ledger_header_len(code);
+            let base_class = format!("b_ledger_{}_{}", name, k);
+            report.floor(&base_class, 1);
+            let pj = json!({"ledger": name, "shape": k, "payload_hex": vh_common::hex(&payload)});
+            let (lh, ih) = match prepare_ledger(&payload, big) {
+                Ok(Ok(x)) => x,
+                other => {
+                    report.oracle_failure(0, "", &format!("canonical ledger payload {} does not prepare: {:?}", base_class, other), pj);
+                    continue;
+                }
+            };
+            report.count(&base_class);
+            report.case(&vh_common::hex(&payload), true);
+            // decode -> re-encode reproduces the bytes
+            match LedgerTransaction::from_raw(&RawLedgerTransaction::from_vec(payload.clone())) {
+                Ok(t) => {
+                    if t.to_raw().unwrap().to_vec() != payload {
+                        report.oracle_failure(0, "", &format!("{}: decode then encode differs", base_class), pj.clone());
+                    }
+                }
+                Err(e) => report.oracle_failure(0, "", &format!("{}: accepted payload does not decode: {:?}", base_class, e), pj.clone()),
+            }
+            by_hash.insert(lh.as_slice().to_vec(), payload.clone());
+            let body_len = payload.len() - hlen;
+            if !oracle_only {
+                cw.push(format!("CLedger {} {} {} 0 {}", big, coq_bytes(&payload), coq_option(Some(body_len.to_string())), code));
+                // the ledger hash: H([prefix, Ledger, kind] ++ inner hash)
+                let kind = match code { 0 | 1 => 0u8, 2 | 5 => 1, 3 => 2, _ => 3 };
+                let mut input = vec![0x54u8, 7, kind];
+                input.extend_from_slice(ih.as_slice());
+                let digest = radix_common::crypto::hash(&input);
+                cw.push(format!("CLedgerHash {} {} [({}, {})] {}", code, coq_bytes(ih.as_slice()), coq_bytes(&input), coq_bytes(digest.as_slice()), coq_bytes(lh.as_slice())));
+            }
+            // ---- mutations at every header position
+            let size_pos: Vec<usize> = if code <= 1 { vec![3, 6, 9] } else { vec![3, 6] };
+            let mut muts: Vec<(String, Vec<u8>, Option<usize>, usize, bool)> = vec![]; // name, payload, consumed, max, must_reject
+            let inner_hdr = if code == 0 { 0 } else { 2 }; // the nested transaction's tuple value kind + field count
+            for pos in 0..(hlen + inner_hdr) {
+                let in_header = pos < hlen;
+                let consumed = if in_header { Some(body_len) } else { None };
+                let mut p = payload.clone();
+                p[pos] = p[pos].wrapping_add(1);
+                muts.push((format!("pos{}_plus1", pos), p, if pos == 5 || pos == 8 { None } else { consumed }, big, true));
+                let mut p = payload.clone();
+                p[pos] ^= 0x80;
+                muts.push((format!("pos{}_high_bit", pos), p, if pos == 5 || pos == 8 { None } else { consumed }, big, true));
+                if size_pos.contains(&pos) || pos == hlen + 1 {
+                    let v = payload[pos];
+                    for (nm, bytes) in [
+                        ("size_zero", vec![if v == 0 { 1 } else { 0 }]),
+                        ("size_plus2", vec![v + 2]),
+                        ("size_nonminimal_2", vec![v | 0x80, 0x00]),
+                        ("size_nonminimal_4", vec![v | 0x80, 0x80, 0x80, 0x00]),
+                        ("size_5_bytes", vec![v | 0x80, 0x80, 0x80, 0x80, 0x00]),
+                        ("size_multibyte_129", vec![0x81, 0x01]),
+                    ] {
+                        let mut p = payload[..pos].to_vec();
+                        p.extend(bytes);
+                        p.extend_from_slice(&payload[pos + 1..]);
+                        muts.push((format!("pos{}_{}", pos, nm), p, consumed, big, true));
+                    }
+                }
+                muts.push((format!("truncated_at_{}", pos), payload[..pos].to_vec(), None, big, true));
+            }
+            muts.push(("one_zero_byte_appended".into(), { let mut p = payload.clone(); p.push(0); p }, Some(body_len), big, true));
+            muts.push(("three_bytes_appended".into(), { let mut p = payload.clone(); p.extend([1, 2, 3]); p }, Some(body_len), big, true));
+            if body_len > 0 {
+                muts.push(("last_byte_dropped".into(), payload[..payload.len() - 1].to_vec(), None, big, true));
+            }
+            muts.push(("over_limit".into(), payload.clone(), Some(body_len), payload.len() - 1, true));
+            muts.push(("at_limit".into(), payload.clone(), Some(body_len), payload.len(), false));
+            muts.push(("payload_prefix_scrypto".into(), { let mut p = payload.clone(); p[0] = 0x5c; p }, Some(body_len), big, true));
+            for (mname, mp, consumed, max, must_reject) in muts {
+                let class = format!("{}_{}", base_class, mname);
+                report.floor(&class, 1);
+                let mj = json!({"ledger": name, "shape": k, "mutation": mname, "payload_hex": vh_common::hex(&mp), "canonical_payload_hex": vh_common::hex(&payload)});
+                match prepare_ledger(&mp, max) {
+                    Err(pn) => report.oracle_failure(0, "", &format!("{}: prepare panicked: {}", class, pn), mj),
+                    Ok(r) => {
+                        report.count(&class);
+                        let c = match &r { Ok(_) => 0u8, Err(c) => *c };
+                        if must_reject && c == 0 {
+                            report.oracle_failure(0, "", &format!("{}: non-canonical ledger payload accepted", class), mj.clone());
+                        }
+                        if !must_reject && c != 0 {
+                            report.oracle_failure(0, "", &format!("{}: canonical ledger payload rejected (class {})", class, c), mj.clone());
+                        }
+                        if let Ok((h, _)) = &r {
+                            // accepted: it must re-encode to itself, and no other accepted byte string may share its hash
+                            if let Ok(t) = LedgerTransaction::from_raw(&RawLedgerTransaction::from_vec(mp.clone())) {
+                                if t.to_raw().unwrap().to_vec() != mp {
+                                    report.oracle_failure(0, "", &format!("{}: accepted payload does not re-encode to the same bytes", class), mj.clone());
+                                }
+                            }
+                            if let Some(prev) = by_hash.get(h.as_slice()) {
+                                if *prev != mp {
+                                    report.oracle_failure(0, "", &format!("{}: two different accepted payloads share the ledger hash", class), mj.clone());
+                                }
+                            }
+                        }
+                        if !oracle_only {
+                            cw.push(format!("CLedger {} {} {} {} {}", max, coq_bytes(&mp), coq_option(consumed.map(|n| n.to_string())), c, if c == 0 { code } else { 99 }));
+                        }
+                    }
+                }
+            }
+        }
+    }
+}
+
 fn main() {
     let args = Args::parse();
     let mut report = Report::new(
@@ -1512,6 +1681,7 @@ fn main() {
     let root = Rng::new(args.seed);
     let latest = PreparationSettings::latest();
     boundary_block(&mut report, &mut cw, args.oracle_only);
+    ledger_block(&mut report, &mut cw, args.oracle_only);
     for i in 0..args.cases {
         let mut rng = root.fork(i as u64);
         let tx = match i % 5 {
